@@ -340,7 +340,7 @@ Qed.
 
 Lemma p_put_ctrl_store : forall p a b, p_store (p_put_ctrl p a b) = p_store p.
 Proof.
-  intros. unfold p_put_ctrl. destruct (p_kind p); try reflexivity. destruct (p_ctrl p); reflexivity.
+  intros. unfold p_put_ctrl. destruct (p_kind p); reflexivity.
 Qed.
 
 Lemma p_put_append : forall p k v, p_attached p = true -> k <> 0 -> keys_below k (p_store p) ->
